@@ -255,6 +255,17 @@ class Compiler:
                 for _ in range(ctx.stack_items):
                     self._emit(OpCode.POP)
 
+    def _compile_rethrowing_finalizer(self, finalizer: Node) -> None:
+        """Compile the copy of a finally block that runs when an exception passes
+        through: the exception waits on the stack and is rethrown afterwards."""
+        # A break, continue or return inside the block abandons the exception
+        # and has to drop it
+        pending = LoopContext(is_loop=False, is_try=True, stack_items=1)
+        self.loop_stack.append(pending)
+        self._compile_statement(finalizer)
+        self.loop_stack.pop()
+        self._emit(OpCode.THROW)  # Rethrow the exception
+
     def _new_loop_context(self, stack_items: int = 0) -> LoopContext:
         """Context of a loop statement; takes over the labels written before it."""
         labels = self._pending_labels
@@ -839,8 +850,7 @@ class Compiler:
                     jump_after_catch = self._emit_jump(OpCode.JUMP)
                     self._patch_jump(catch_guard)
                     self.loop_stack.pop()
-                    self._compile_statement(node.finalizer)
-                    self._emit(OpCode.THROW)  # Rethrow the exception
+                    self._compile_rethrowing_finalizer(node.finalizer)
                 else:
                     self._compile_statement(node.handler.body)
                     self.loop_stack.pop()
@@ -849,8 +859,7 @@ class Compiler:
                 # No catch, only finally - exception is on stack
                 # Run finally then rethrow
                 self.loop_stack.pop()
-                self._compile_statement(node.finalizer)
-                self._emit(OpCode.THROW)  # Rethrow the exception
+                self._compile_rethrowing_finalizer(node.finalizer)
 
             # Normal finally block (after try completes normally or after catch)
             self._patch_jump(jump_to_finally)
